@@ -51,6 +51,8 @@ def run(ctx):
         when = "pre" if o["at"] < 0 else "at"
         how = "hang" if o["r"] == "hang" else "alive" if o["alive"] or o["init_alive"] else \
               "late" if o["r"] == "verdict" and o["status"] == 2 else "%s:%s:%s" % (o["r"], o["status"], o["err"][:40])
+        if o.get("frozen") and o["r"] != "err":
+            how = "inflight-call-returned-" + o["r"]
         key = "%s:%s:%s:%s:%s" % (o["runner"], "destroy" if o["destroy"] else "cancel", o["prog"], when, how)
         ctx.violation(key, "run did not end as C11 requires: r=%s status=%s code=%s elapsed=%sms alive=%s init_alive=%s err=%r" % (
             o["r"], o["status"], o["code"], o["elapsed"], o["alive"], o["init_alive"], o["err"]), o)
@@ -64,6 +66,6 @@ def run(ctx):
     ctx.assumptions += ["kill(-pgid) reaches a process only after it became leader of that group (setsid)",
                         "bounded time = 8 s after the cancellation instant (typical < 100 ms)",
                         "cancellation instants are timer-based (0..100 ms sweep + already-cancelled); the pre-setsid window is widened with a 3000-entry descriptor list"]
-    return dict(evaluations=len(obs), distinct=len({(o["runner"], o["prog"], o["at"], o["nfiles"], o["destroy"]) for o in obs}),
+    return dict(evaluations=len(obs), distinct=len({(o["runner"], o["prog"], o["at"], o["nfiles"], o["destroy"], o["frozen"]) for o in obs}),
                 rule="TLC-enumerated (runner, program, cancellation/Destroy instant, descriptor list size); distinct = distinct tuples",
                 exhaustive=False)
